@@ -160,7 +160,8 @@ func c18Gen(t *rapid.T) C18Case {
 		ts := base
 		for j := 0; j < m; j++ {
 			ts += rapid.Int64Range(0, 3).Draw(t, "gap") * 250e6
-			lines = append(lines, dl.Line{TS: ts, Msg: rapid.SampledFrom([]string{"GET /a 200", "POST /b 500", "err timeout", "ok"}).Draw(t, "msg")})
+			lines = append(lines, dl.Line{TS: ts, Msg: rapid.SampledFrom([]string{"GET /a 200", "POST /b 500", "err timeout", "ok", "GET /c 0.1", "PUT /d 0.2", "GET /e 0.3", "GET /f 0.7",
+				`{"request":{"method":"GET","path":"/a"},"tags":["x","y"],"n":1}`, `{"request":{"method":"POST"},"tags":[],"n":2}`}).Draw(t, "msg")})
 		}
 		c.Ctrs = append(c.Ctrs, lines)
 		labels := map[string]string{"tier": rapid.SampledFrom([]string{"web", "db"}).Draw(t, "tier")}
@@ -202,6 +203,15 @@ func c18Gen(t *rapid.T) C18Case {
 		`sum by (tier, env) (count_over_time({}[5s])) / sum by (tier, env) (bytes_over_time({}[5s]))`,
 		`count_over_time({}[2s]) + count_over_time({}[2s])`,
 		`sum by (tier, env) (count_over_time({}[5s])) or sum by (tier, env) (count_over_time({tier="web"}[5s]))`,
+		// several labels taken from one place of a JSON document (an object, an array, a number)
+		`{} | json req="request", request="request", n, m="n"`,
+		`{} | json tags, t="tags", first="tags[0]" | drop msg`,
+		`sum by (req, request) (count_over_time({} | json req="request", request="request" [5s]))`,
+		// sums and averages of values that are not integers: the order of the additions must not
+		// depend on the run
+		`sum(sum_over_time({} | pattern "<method> <path> <code>" | unwrap code [5s]))`,
+		`avg by (tier) (sum_over_time({} | pattern "<method> <path> <code>" | unwrap code [5s]))`,
+		`stddev(avg_over_time({} | pattern "<method> <path> <code>" | unwrap code [3s]))`,
 		// ties at the cut of topk / bottomk (containers that logged equally many lines)
 		`topk(1, sum by (container) (count_over_time({}[5s])))`,
 		`bottomk(1, count_over_time({} | drop msg [5s]))`,
@@ -258,6 +268,17 @@ func c18Gen(t *rapid.T) C18Case {
 			q = rapid.SampledFrom([]string{"topk", "bottomk"}).Draw(t, "gn-topk-op") + " " + grouping("gt") + " (" + strconv.Itoa(rapid.IntRange(1, 3).Draw(t, "gn-k")) + ", " + q + ")"
 		}
 		c.Query = q
+	}
+	if strings.Contains(c.Query, "| json") {
+		// a query over JSON documents gets JSON documents
+		for i := range c.Ctrs {
+			for j := range c.Ctrs[i] {
+				if rapid.IntRange(0, 2).Draw(t, "json-line") != 0 {
+					c.Ctrs[i][j].Msg = rapid.SampledFrom([]string{`{"request":{"method":"GET","path":"/a"},"tags":["x","y"],"n":1}`, `{"request":{"method":"POST"},"tags":[],"n":2}`,
+						`{"request":{"method":"GET","path":"/a"},"tags":["x","y"],"n":1}`, `{"request":"flat","tags":"none","n":1.5}`}).Draw(t, "json-msg")
+				}
+			}
+		}
 	}
 	c.Waves = []int{n}
 	switch {
